@@ -76,6 +76,7 @@ def run(c):
     r2(c)
     r3(c)
     r4(c)
+    r5(c)
 
 
 def r1(c, readers, n_logic):
@@ -275,3 +276,33 @@ def r4(c):
                        f"({site.how[:80]} at {site.at()}): the nested rows it removes are gone from the diff make_pre then reads for the patch", key_text="mutated-before-patch")
         else:
             c.holds("C16.R4", repo.loc(m, fn), f"{name}/diff-intact-until-patch", "nothing that may mutate the diff touches it before the patch is built")
+
+
+def r5(c):
+    repo = c.repo
+    c.rule("C16.R5", "the two front ends diff the same trees for the same hardware: old and new reach make_diff in _diff_and_patch through apply_acl only and in "
+                     "_read_old_new_diff_patch untouched — no further rewriting (ordering, completion, normalisation) in one front end only; and the file front end keeps the "
+                     "hardware it was given: _read_old_new_hw hands _read_device_config args.hw itself (or HardwareView(args.hw, ...)), never a reduction of it (vendor only)")
+    m = repo.module(API)
+    for name, q, allowed in (("device", "_diff_and_patch", {"apply_acl"}), ("file", "_read_old_new_diff_patch", set())):
+        fn = repo.func(API, q)
+        c.count("functions")
+        pv = Provenance(fn)
+        mds = [x for x in calls_in(fn) if call_name(x).split(".")[-1] == "make_diff"]
+        if len(mds) != 1 or len(mds[0].args) < 2:
+            continue   # C16.R2 reports a front end without its make_diff
+        for i, side in ((0, "old"), (1, "new")):
+            extra = [call_name(x) for x in pv.origin_calls(mds[0].args[i], through_calls=False) if call_name(x).split(".")[-1] not in allowed]
+            c.check("C16.R5", not extra, repo.loc(m, mds[0]), f"{name}/make_diff({side})", f"in the {name} front end `{side}` passes through {extra} before make_diff; the other front end "
+                    "does not do that — entries come in another order (ties in the patch sort follow diff order) or differ outright", key_text=f"{name}-{side}-rewritten")
+    fn = repo.func(API, "_read_old_new_hw")
+    c.count("functions")
+    pv = Provenance(fn)
+    rd = [x for x in calls_in(fn) if call_name(x) == "_read_device_config" and len(x.args) >= 2]
+    if len(rd) < 2:
+        raise AnchorError("_read_old_new_hw: _read_device_config(path, hw) calls not found")
+    for x in rd:
+        extra = [call_name(y) for y in pv.origin_calls(x.args[1], through_calls=False) if call_name(y).split(".")[-1] not in ("HardwareView",)]
+        srcs = {norm(o) for k, o in pv.origins(x.args[1], through_calls=False) if k in ("attr", "other", "param")}
+        c.check("C16.R5", not extra, repo.loc(m, x), "_read_old_new_hw/hw-as-given", f"the hardware handed to _read_device_config comes through {extra}: a model given with --hw is reduced "
+                "(e.g. to its vendor), so model-conditional rules (%if hw....) and logic are evaluated for another hardware than in device mode", key_text="hw-reduced")
